@@ -4,7 +4,7 @@ CONSTANTS
   MaxG = 2
   MaxH = 2
   MaxReq = 2
-  ReadOrder = "pend_store"
-  Fix = "recheck"
-INVARIANTS TypeOK SubjectiveCoversStoreAtRest
+  ReadOrder = "store_pend"
+  Fix = "max"
+INVARIANTS TypeOK HeadMonotone
 CHECK_DEADLOCK FALSE
